@@ -47,6 +47,37 @@ partial def showPTree : PTree → String
   | .un op a => "(un " ++ Sexp.quote op ++ " " ++ showPTree a ++ ")"
   | .bin op a b => "(bin " ++ Sexp.quote op ++ " " ++ showPTree a ++ " " ++ showPTree b ++ ")"
 
+partial def decATerm : Sexp → D ATerm
+  | .list [.atom "fn", name, .list args] => do return .fn (← decStr name) (← args.mapM decStr)
+  | .list [.atom "neg", t] => do return .neg (← decATerm t)
+  | .list (.atom "pool" :: ts) => do return .pool (← ts.mapM decATerm)
+  | s => dfail "atom term" s
+
+def showTParam : TParam → String
+  | .num n => s!"(num {n})"
+  | .time s => s!"(time {s})"
+
+partial def showRTerm : RTerm → String
+  | .fn name args params => s!"(fn {Sexp.quote name} ({" ".intercalate (args.map Sexp.quote)}) ({" ".intercalate (params.map showTParam)}))"
+  | .neg t => s!"(neg {showRTerm t})"
+  | .pool ts => s!"(pool {" ".intercalate (ts.map showRTerm)})"
+
+partial def decSym : Sexp → D Sym
+  | .list [.atom "n", n] => return .num (← decInt n)
+  | .list [.atom "s", s] => return .str (← decStr s)
+  | .list [.atom "inf"] => return .inf
+  | .list [.atom "sup"] => return .sup
+  | .list (.atom "f" :: name :: pos :: args) => return .fn (← decStr name) (← args.mapM decSym) (← decBool pos)
+  | s => dfail "symbol" s
+
+partial def showTTerm : TTerm → String
+  | .num n => s!"(n {n})"
+  | .sym s => s!"(s {Sexp.quote s})"
+  | .fn name args => "(f " ++ Sexp.quote name ++ String.join (args.map fun a => " " ++ showTTerm a) ++ ")"
+  | .tup args => "(t" ++ String.join (args.map fun a => " " ++ showTTerm a) ++ ")"
+  | .lst args => "(l" ++ String.join (args.map fun a => " " ++ showTTerm a) ++ ")"
+  | .set args => "(c" ++ String.join (args.map fun a => " " ++ showTTerm a) ++ ")"
+
 def handle (s : Sexp) : D String :=
   match s with
   | .list [.atom "loop", imin, imax, istop, .list res] => do
@@ -169,6 +200,21 @@ def handle (s : Sexp) : D String :=
         | s => dfail "interval" s
       let s := ys.foldl IntervalSet.add []
       pure (" ".intercalate (s.map fun i => s!"({i.left} {i.right})"))
+  | .list [.atom "addtime", rf, ff, fp, t] => do
+      -- (addtime rf ff fp <term>)   term ::= (fn name (args...)) | (neg term) | (pool term...)
+      match addTime (← decBool rf) (← decBool ff) (← decBool fp) true {} (← decATerm t) with
+      | .error e => pure ("ERR " ++ e.tag)
+      | .ok (t', st) =>
+        let fs := st.futures.map fun (n, a, p, sh) => s!"({Sexp.quote n} {a} {if p then "true" else "false"} {sh})"
+        pure s!"ok {showRTerm t'} ({" ".intercalate fs}) {st.maxShift}"
+  | .list [.atom "symterm", x] => do
+      -- (symterm <symbol>) : the theory term of the symbol, and what create_symbol makes of it
+      let sy ← decSym x
+      let t := symTerm sy
+      let back := match createSymbol t with
+        | .ok s' => if s' == sy then "same" else "different " ++ s'.toStr
+        | .error e => "ERR " ++ e.tag
+      pure s!"{showTTerm t} {back}"
   | s => .error s!"unknown command: {s.toStr}"
 
 partial def loop (inp : IO.FS.Stream) (out : IO.FS.Stream) : IO Unit := do
